@@ -65,6 +65,15 @@ def gen_op(rng, i):
         dirs = rng.choice(["e", "ce", "cce", "fe", "cfce", "Cce"]); ins = pick_sizes(rng, [MID, BIG[:2]])
     elif kind == 8:    # zero-sized rooms in the mix
         outs = [0] + pick_sizes(rng, [TINY, MID, BIG], 2); ins = [0] + pick_sizes(rng, [TINY, MID, BIG], 2)
+    elif kind == 9:    # legacy calls: ZSTD_compressStream / ZSTD_flushStream ('y') / ZSTD_endStream ('x'), the frame finished by repeating endStream
+        dirs = rng.choice(["cx", "ccx", "cyx", "x", "cycx", "yx", "cccyccx", "Cx", "cxc"]) if rng.random() < 0.7 else "".join(rng.choice("ccCfexy") for _ in range(rng.randint(1, 6)))
+    elif kind == 10:   # legacy end exactly where the internal input buffer has wrapped back to its start (or on an empty stream), roomy output:
+                       # the whole rest goes straight into the caller's buffer and the very next endStream must report completion
+        win = 1 << wl; ibs = win + blk
+        n = rng.choice([0, 0, ibs, 2 * ibs, 3 * ibs, ibs, blk, 2 * blk, ibs + 1, ibs - 1]); n = min(n, 600000 if p[100] < 4 else 200000)
+        ins = rng.choice([[blk], [n if n else 1], [blk - 1, 1], pick_sizes(rng, [MID, BIG])]); outs = [rng.choice([70, 200, 1000, 200000, n + n // 128 + 100])]
+        dirs = rng.choice(["cx", "x", "cx", "cyx", "cccccx"])
+        if rng.random() < 0.3: p[9000] = 1; dirs = rng.choice(["X", "cX", "cyX"])      # a pledged size: end only once everything was fed
     if n > 4000 and max(ins) < 10 and max(outs) < 10:
         n = 4000
     if n > 60000 and (max(ins) < 50 or max(outs) < 50):
